@@ -5,6 +5,7 @@ package disk
 
 import (
 	"context"
+	"io"
 
 	"github.com/buchgr/bazel-remote/v2/cache"
 	"github.com/buchgr/bazel-remote/v2/cache/disk/casblob"
@@ -125,3 +126,99 @@ func vCrashPut(kind cache.EntryKind, mode casblob.CompressionType, maxSteps int,
 func VerifCrashPutCasRaw()  { vCrashPut(cache.CAS, casblob.Identity, 8, 0) }
 func VerifCrashPutAC()      { vCrashPut(cache.AC, casblob.Zstandard, 8, 0) }
 func VerifCrashPutCasZstd() { vCrashPut(cache.CAS, casblob.Zstandard, 14, 1500000) }
+
+func vLE(b []byte, off, n int) int64 {
+	v := int64(0)
+	for i := 0; i < n; i++ {
+		v |= int64(b[off+i]) << (8 * uint(i))
+	}
+	return v
+}
+
+// vCrashFetch: a blob is being fetched from the backend (compressed CAS
+// storage: the backend delivers a finished casblob file, header first) when
+// the process is killed at the k-th file-system step; restart; read the key.
+// The file on disk carries a perfectly valid header and may be truncated.
+func vCrashFetch() {
+	const logical = 1500000 // appears in the file name the loader parses
+	d := vNewDisk(0, casblob.Zstandard, nil, true)
+	c, px := d.c, d.px
+	vCrashDirs()
+	vsym.Assume(c.maxBlobSize >= 2<<20)
+	vsym.Assume(c.maxProxyBlobSize >= 2<<20)
+	vsym.Assume(c.lru.maxSize >= 8<<20)
+	vsym.Assume(c.lru.reservedSize == 0)
+	c.lru.maxSizeHardLimit = 0
+	l := vsym.Int64("fileLen")
+	vsym.Assume(l > 45)
+	vsym.Assume(l < 4<<20)
+	head := vsym.Bytes("bh", 45)
+	vsym.Assume(vLE(head, 0, 4) == 0x184D2A50)
+	vsym.Assume(vLE(head, 4, 4) == 2*8+8+1+4+8)
+	vsym.Assume(vLE(head, 8, 8) == logical)
+	vsym.Assume(head[16] == byte(casblob.Zstandard))
+	vsym.Assume(vLE(head, 17, 4) == 2<<20) // one chunk
+	vsym.Assume(vLE(head, 21, 8) == 2)
+	vsym.Assume(vLE(head, 29, 8) == 45)
+	vsym.Assume(vLE(head, 37, 8) == l)
+	bs := &vmodel.MStream{Name: "backend", L: l, FailAt: -1, Head: head}
+	px.getRC, px.getSize = bs, logical
+	d.codec.Arbitrary = true
+	crashAt := vsym.Choose("crashAt", 9) // 0 = no crash
+	vmodel.FS.CrashAt = crashAt
+	sizeKnown := vsym.Choose("sizeKnown", 2) == 1
+	req := int64(-1)
+	if sizeKnown {
+		req = logical
+		vsym.Fact("sizeKnown", "yes")
+	} else {
+		vsym.Fact("sizeKnown", "no")
+	}
+
+	rc, _, err := c.Get(context.Background(), cache.CAS, vHashA, req, 0)
+	served := err == nil && rc != nil && !vmodel.FS.Dead
+	if crashAt != 0 && !vmodel.FS.Dead {
+		vsym.Stop("the fetch has fewer file-system steps than the crash point")
+	}
+	if vmodel.FS.Dead {
+		vsym.Reach("crashed-during-fetch")
+	}
+	if rc != nil && !vmodel.FS.Dead {
+		_ = rc.Close()
+	}
+
+	vmodel.FS.Restart()
+	c2 := &diskCache{dir: vDir, storageMode: casblob.Zstandard, zstd: d.codec, maxBlobSize: 1 << 40, maxProxyBlobSize: 1 << 40, diskWaitSem: c.diskWaitSem}
+	lerr := c2.loadExistingFiles(c.lru.maxSize, CacheConfig{diskCache: c2})
+	vsym.Assert(lerr == nil, "crashfetch/C08-restart-succeeds")
+	if lerr != nil {
+		return
+	}
+	var rc2 io.ReadCloser
+	var found int64
+	var gerr error
+	if vsym.Choose("readAsZstd", 2) == 1 {
+		rc2, found, gerr = c2.GetZstd(context.Background(), vHashA, req, 0)
+	} else {
+		rc2, found, gerr = c2.Get(context.Background(), cache.CAS, vHashA, req, 0)
+	}
+	if served {
+		vsym.Reach("fetched-before-crash")
+		vsym.Assert(gerr == nil && rc2 != nil, "crashfetch/C08-completed-fetch-is-served-after-restart")
+	}
+	if gerr != nil || rc2 == nil {
+		vsym.Reach("absent-after-restart")
+		return
+	}
+	vsym.Reach("served-after-restart")
+	vsym.Assert(found == logical, "crashfetch/C08-served-entry-has-the-blob-size")
+	okF := len(vmodel.FS.Files) == 1
+	vsym.Assert(okF, "crashfetch/C04-exactly-one-file-after-restart")
+	if okF {
+		// a file cut short by the kill is never served
+		vsym.Assert(vmodel.FS.Files[0].Size == l, "crashfetch/C08-no-torn-entry-served")
+	}
+	_ = rc2.Close()
+}
+
+func VerifCrashFetchCasZstd() { vCrashFetch() }
